@@ -626,9 +626,12 @@ def full_init(facts):
         fields = [f for (r, f) in want if r == rect]
         if not fields or fn.get("body") is None:
             continue
-        inl = {d: v["init"] for d, v in local_decls(fn).items() if v.get("init") is not None and v.get("const")}
+        from astu import inlined_body, single_assignment_locals
+        by_pat = {f["pat"]: f for f in fns.values()}
+        body = inlined_body(fn, by_pat)     # a private helper that clears the array is seen through
+        inl = single_assignment_locals(dict(fn, body=body))
         idx = 0
-        for b in blocks(fn["body"], []):
+        for b in blocks(body, []):
             st = stmts_of(b)
             for i, s in enumerate(st):
                 if s.get("k") != "Expr":
